@@ -74,7 +74,7 @@ def prop_catalogue(tier):
     for n, ps in fixed:
         m = (len(ps) - 1) // 2
         add("gcc", n, ps, D=m - 1, base=ps[0])
-    for n in (2, 4) if q else (2, 4, 6):
+    for n in (2, 4, 6) if q else (2, 4, 6, 8):
         add("lexicographic_leq", n, [], D=2 if n <= 4 else 1)
     for alg in ("max_eq", "max_leq", "min_eq", "min_geq"):
         for n in (2, 3) if q else (2, 3, 4):
